@@ -43,7 +43,8 @@ def main() -> int:
     ctx = core.Ctx(a.prop, a.tier, prog, seed)
     ctx.explanation = mod.EXPLANATION
     mod.run(ctx)
-    if not ctx.violations:
+    known = {k['key'] for k in core.load_known() if k.get('status') == 'known' and a.prop in k.get('properties', [])}
+    if not [v for v in ctx.violations if v['key'] not in known]:
         # a definite violation is reported even when another rule lost its anchors;
         # a vacuous pass is never reported
         if ctx.incomplete:
